@@ -35,6 +35,97 @@ type c47Case struct {
 	Chunk  int    `json:"chunk"`  // write size
 	Closer string `json:"closer"` // client | backend
 	Reset  bool   `json:"reset"`  // closer closes with RST
+	// Last > 0: the closer writes the last Last bytes of its stream and closes at once (clean close), so
+	// that the final data and the close reach bfe together; 0: the close comes after both sides have
+	// received everything.
+	Last int `json:"last,omitempty"`
+}
+
+// corkConn sits between crypto/tls and the TCP connection of a TLS client. While hold is set, writes
+// are collected; Close then emits everything collected (the last application-data records and the
+// close_notify alert that tls.Conn.Close writes) with ONE Write on the TCP connection and closes it.
+type corkConn struct {
+	net.Conn
+	mu      sync.Mutex
+	hold    bool
+	buf     []byte
+	flushed []byte // what the final single Write carried (for the evidence counters)
+}
+
+func (c *corkConn) Write(p []byte) (int, error) {
+	c.mu.Lock()
+	if c.hold {
+		c.buf = append(c.buf, p...)
+		c.mu.Unlock()
+		return len(p), nil
+	}
+	c.mu.Unlock()
+	return c.Conn.Write(p)
+}
+
+func (c *corkConn) Close() error {
+	c.mu.Lock()
+	buf := c.buf
+	c.buf, c.hold = nil, false
+	c.mu.Unlock()
+	if len(buf) > 0 {
+		c.Conn.SetWriteDeadline(time.Now().Add(60 * time.Second))
+		c.Conn.Write(buf)
+		c.flushed = buf
+	}
+	return c.Conn.Close()
+}
+
+// tlsDataThenAlert reports whether b is a sequence of whole TLS records with at least one
+// application-data record (type 23) followed by an alert record (type 21) at the very end.
+func tlsDataThenAlert(b []byte) bool {
+	data, last := false, byte(0)
+	for len(b) >= 5 {
+		n := int(b[3])<<8 | int(b[4])
+		if len(b) < 5+n {
+			return false
+		}
+		last = b[0]
+		if last == 23 {
+			data = true
+		}
+		b = b[5+n:]
+	}
+	return len(b) == 0 && data && last == 21
+}
+
+// rawTCP finds the TCP connection under a client connection of any kind.
+func rawTCP(c net.Conn) *net.TCPConn {
+	for {
+		switch x := c.(type) {
+		case *tls.Conn:
+			c = x.NetConn()
+		case *corkConn:
+			c = x.Conn
+		case *net.TCPConn:
+			return x
+		default:
+			return nil
+		}
+	}
+}
+
+// closeWithLast writes last and closes c at once. TLS clients: the data records and close_notify
+// leave in one TCP write; plain TCP (websocket client, every backend): Write directly followed by Close.
+func closeWithLast(c net.Conn, last []byte) (coalesced bool) {
+	if tc, ok := c.(*tls.Conn); ok {
+		if ck, ok := tc.NetConn().(*corkConn); ok {
+			ck.mu.Lock()
+			ck.hold = true
+			ck.mu.Unlock()
+			tc.Write(last)
+			tc.Close()
+			return tlsDataThenAlert(ck.flushed)
+		}
+	}
+	c.Write(last)
+	c.Close()
+	return false
 }
 
 func tok(id, dir, i int) byte { return byte(i*131 + id*7 + dir*101 + (i >> 8)) }
@@ -179,6 +270,38 @@ func c47Gen(g *vkit.Rand, id int) *c47Case {
 	return c
 }
 
+// c47GenFinal: the closer's stream ends with a write of 1 B..64 KB that is followed at once by a clean close.
+func c47GenFinal(g *vkit.Rand, id int) *c47Case {
+	c := &c47Case{ID: id}
+	c.Kind = []string{"ws", "wss", "stream"}[id%3]
+	c.Closer = []string{"client", "backend", "client", "client", "backend"}[(id/3)%5]
+	c.Last = []int{1, 2, 100, 1000, 4096, 16384, 16385, 40000, 65536}[g.Intn(9)]
+	pre := []int{0, 1, 100, 4096, 65536, 300000}[g.Intn(6)]
+	opp := []int{0, 1, 100, 4096, 65536}[g.Intn(5)]
+	c.Lc, c.Lb = pre+c.Last, opp
+	if c.Closer == "backend" {
+		c.Lc, c.Lb = opp, pre+c.Last
+	}
+	c.Chunk = []int{7, 512, 4096, 65536, 1 << 20}[g.Intn(5)]
+	if c.Kind != "stream" {
+		lim := c.Lc
+		if c.Closer == "client" {
+			lim = pre
+		}
+		if g.Bool() && lim > 0 {
+			c.Early = 1 + g.Intn(min(lim, 3000))
+		}
+		lim = c.Lb
+		if c.Closer == "backend" {
+			lim = pre
+		}
+		if g.Bool() && lim > 0 {
+			c.BEarly = 1 + g.Intn(min(lim, 3000))
+		}
+	}
+	return c
+}
+
 func min(a, b int) int {
 	if a < b {
 		return a
@@ -201,7 +324,7 @@ func writeChunked(c net.Conn, b []byte, chunk int) error {
 }
 
 func c47(r *vkit.Run) {
-	r.SetRule("full in-process BFE (HTTP + HTTPS with ALPN stream); tunnels of three kinds (websocket over http, over https, TLS-offload stream) to raw TCP backends; each direction carries a position-dependent token stream of 0 B..1 MB written in chunks of 1 B..1 MB, both directions concurrently, optionally with client bytes in the same write as the upgrade request and backend bytes in the same write as the 101 response; receivers verify every offset; after both sides have received everything the designated closer (client or backend, clean FIN or RST) closes and the other side must observe EOF/close, bounded by completed control round trips through bfe rather than by a timeout. Non-trivial = both directions non-empty or early data; distinct = (kind, sizes, early, chunk, closer, reset)")
+	r.SetRule("full in-process BFE (HTTP + HTTPS with ALPN stream); tunnels of three kinds (websocket over http, over https, TLS-offload stream) to raw TCP backends; each direction carries a position-dependent token stream of 0 B..1 MB written in chunks of 1 B..1 MB, both directions concurrently, optionally with client bytes in the same write as the upgrade request and backend bytes in the same write as the 101 response; receivers verify every offset; after both sides have received everything the designated closer (client or backend, clean FIN or RST) closes and the other side must observe EOF/close, bounded by completed control round trips through bfe rather than by a timeout. Second family (last write together with the close): the closer's stream ends with a write of 1 B..64 KB that is followed at once by a clean close, issued when the closer has received the whole opposite stream (nothing else in flight, no RST): TLS clients (wss, stream) run over a connection wrapper that emits the last application-data records and the close_notify alert in ONE TCP write and then closes; plain TCP closers (websocket client, every backend) call Write directly followed by Close; the receiver must have verified every offset of the closer's stream before it observes EOF (a receive that ends on the 120 s watchdog deadline is skipped, never judged), then the close must be propagated as above. Non-trivial = both directions non-empty, early data or a last write with close; distinct = (kind, sizes, early, chunk, closer, reset, last)")
 	wsB := &c47Backend{wait: map[int]chan *c47Tunnel{}, bearly: map[int]int{}}
 	stB := &c47Backend{wait: map[int]chan *c47Tunnel{}, bearly: map[int]int{}}
 	var err error
@@ -256,8 +379,28 @@ func c47(r *vkit.Run) {
 		for i := 0; i < n; i++ {
 			cases = append(cases, c47Gen(r.Rng("case", i), i))
 		}
+		// second family (own generator stream): the closer's last write and its close reach bfe together
+		nf := r.N(150, 2000)
+		for i := 0; i < nf; i++ {
+			cases = append(cases, c47GenFinal(r.Rng("final", i), n+i))
+		}
 	}
 
+	// TLS clients run over a corkConn (transparent until closeWithLast sets hold)
+	dialTLS := func(protos []string) (*tls.Conn, error) {
+		raw, err := net.DialTimeout("tcp", srv.HTTPSAddr, 20*time.Second)
+		if err != nil {
+			return nil, err
+		}
+		conn := tls.Client(&corkConn{Conn: raw}, &tls.Config{InsecureSkipVerify: true, NextProtos: protos, MaxVersion: tls.VersionTLS12})
+		conn.SetDeadline(time.Now().Add(60 * time.Second))
+		if err := conn.Handshake(); err != nil {
+			raw.Close()
+			return nil, err
+		}
+		conn.SetDeadline(time.Time{})
+		return conn, nil
+	}
 	dialClient := func(c *c47Case) (net.Conn, *bufio.Reader, error) {
 		switch c.Kind {
 		case "ws":
@@ -267,13 +410,13 @@ func c47(r *vkit.Run) {
 			}
 			return conn, bufio.NewReaderSize(conn, 64<<10), nil
 		case "wss":
-			conn, err := tls.DialWithDialer(&net.Dialer{Timeout: 20 * time.Second}, "tcp", srv.HTTPSAddr, &tls.Config{InsecureSkipVerify: true, NextProtos: []string{"http/1.1"}, MaxVersion: tls.VersionTLS12})
+			conn, err := dialTLS([]string{"http/1.1"})
 			if err != nil {
 				return nil, nil, err
 			}
 			return conn, bufio.NewReaderSize(conn, 64<<10), nil
 		default:
-			conn, err := tls.DialWithDialer(&net.Dialer{Timeout: 20 * time.Second}, "tcp", srv.HTTPSAddr, &tls.Config{InsecureSkipVerify: true, NextProtos: []string{"stream"}, MaxVersion: tls.VersionTLS12})
+			conn, err := dialTLS([]string{"stream"})
 			if err != nil {
 				return nil, nil, err
 			}
@@ -311,6 +454,9 @@ func c47(r *vkit.Run) {
 
 	run := func(c *c47Case) {
 		key := fmt.Sprintf("%s|%d|%d|%d|%d|%d|%s|%v", c.Kind, c.Lc, c.Lb, c.Early, c.BEarly, c.Chunk, c.Closer, c.Reset)
+		if c.Last > 0 {
+			key += fmt.Sprintf("|last=%d", c.Last)
+		}
 		w := map[string]interface{}{"case": c}
 		sig := c.Kind
 		be := wsB
@@ -364,18 +510,85 @@ func c47(r *vkit.Run) {
 				}
 			}
 		}
-		nontrivial := (c.Lc > 0 && c.Lb > 0) || c.Early > 0 || c.BEarly > 0
+		nontrivial := (c.Lc > 0 && c.Lb > 0) || c.Early > 0 || c.BEarly > 0 || c.Last > 0
 		r.CaseS(key, nontrivial)
 		r.Count("tunnels_"+c.Kind, 1)
 		var wg sync.WaitGroup
 		var cGot, cBad, bGot, bBad int
 		var cErr, bErr error
+		b2c := tokens(c.ID, 1, c.Lb)
+		// Last > 0: the closer's chunked writer stops Last bytes before the end; when the closer has
+		// received the whole opposite stream (so nothing else is in flight and the close is a clean
+		// FIN), it writes those Last bytes and closes at once.
+		cEnd, bEnd := c.Lc, c.Lb
+		final := ""
+		if c.Last > 0 {
+			final = ":last-write-with-close"
+			if c.Closer == "client" {
+				cEnd = c.Lc - c.Last
+				if cEnd < sentEarly {
+					cEnd = sentEarly
+				}
+			} else {
+				bEnd = c.Lb - c.Last
+				if bEnd < c.BEarly {
+					bEnd = c.BEarly
+				}
+			}
+		}
+		clientGotAll, backendGotAll := make(chan struct{}), make(chan struct{})
+		coalesced := false
 		wg.Add(4)
-		go func() { defer wg.Done(); writeChunked(conn, c2b[sentEarly:], c.Chunk) }()
-		go func() { defer wg.Done(); writeChunked(t.conn, tokens(c.ID, 1, c.Lb)[c.BEarly:], c.Chunk) }()
-		go func() { defer wg.Done(); bGot, bBad, bErr = verifyStream(t.br, c.ID, 0, c.Lc) }()
-		go func() { defer wg.Done(); cGot, cBad, cErr = verifyStream(cbr, c.ID, 1, c.Lb) }()
+		go func() {
+			defer wg.Done()
+			writeChunked(conn, c2b[sentEarly:cEnd], c.Chunk)
+			if c.Last > 0 && c.Closer == "client" {
+				<-clientGotAll
+				coalesced = closeWithLast(conn, c2b[cEnd:])
+			}
+		}()
+		go func() {
+			defer wg.Done()
+			writeChunked(t.conn, b2c[c.BEarly:bEnd], c.Chunk)
+			if c.Last > 0 && c.Closer == "backend" {
+				<-backendGotAll
+				closeWithLast(t.conn, b2c[bEnd:])
+			}
+		}()
+		go func() {
+			defer wg.Done()
+			defer close(backendGotAll)
+			bGot, bBad, bErr = verifyStream(t.br, c.ID, 0, c.Lc)
+		}()
+		go func() {
+			defer wg.Done()
+			defer close(clientGotAll)
+			cGot, cBad, cErr = verifyStream(cbr, c.ID, 1, c.Lb)
+		}()
 		wg.Wait()
+		if c.Last > 0 {
+			// the receiver's deadline (120 s) is a watchdog, never a verdict
+			rxErr := bErr
+			if c.Closer == "backend" {
+				rxErr = cErr
+			}
+			if ne, ok := rxErr.(net.Error); ok && ne.Timeout() {
+				r.Count("last_write_with_close_receive_deadline_expired_skipped", 1)
+				return
+			}
+			r.Count("last_write_with_close:"+c.Kind+":"+c.Closer+"-closes", 1)
+			switch {
+			case c.Last <= 100:
+				r.Count("last_write_size:1..100", 1)
+			case c.Last <= 16384:
+				r.Count("last_write_size:101..16384", 1)
+			default:
+				r.Count("last_write_size:16385..65536", 1)
+			}
+			if coalesced {
+				r.Count("tls_client_last_data_and_close_notify_in_one_tcp_write:"+c.Kind, 1)
+			}
+		}
 		r.Count("bytes_client_to_backend", int64(bGot))
 		r.Count("bytes_backend_to_client", int64(cGot))
 		w["backend_received"], w["client_received"] = bGot, cGot
@@ -384,11 +597,11 @@ func c47(r *vkit.Run) {
 			early = ":early-data"
 		}
 		if bBad >= 0 {
-			r.Violation("client-to-backend:corrupt-or-reordered"+early+":"+sig, fmt.Sprintf("first bad offset %d of %d", bBad, c.Lc), w)
+			r.Violation("client-to-backend:corrupt-or-reordered"+early+final+":"+sig, fmt.Sprintf("first bad offset %d of %d", bBad, c.Lc), w)
 			return
 		}
 		if bGot != c.Lc {
-			r.Violation("client-to-backend:bytes-lost"+early+":"+sig, fmt.Sprintf("backend received %d of %d bytes (%v)", bGot, c.Lc, bErr), w)
+			r.Violation("client-to-backend:bytes-lost"+early+final+":"+sig, fmt.Sprintf("backend received %d of %d bytes (%v)", bGot, c.Lc, bErr), w)
 			return
 		}
 		bearly := ""
@@ -396,11 +609,11 @@ func c47(r *vkit.Run) {
 			bearly = ":early-data"
 		}
 		if cBad >= 0 {
-			r.Violation("backend-to-client:corrupt-or-reordered"+bearly+":"+sig, fmt.Sprintf("first bad offset %d of %d", cBad, c.Lb), w)
+			r.Violation("backend-to-client:corrupt-or-reordered"+bearly+final+":"+sig, fmt.Sprintf("first bad offset %d of %d", cBad, c.Lb), w)
 			return
 		}
 		if cGot != c.Lb {
-			r.Violation("backend-to-client:bytes-lost"+bearly+":"+sig, fmt.Sprintf("client received %d of %d bytes (%v)", cGot, c.Lb, cErr), w)
+			r.Violation("backend-to-client:bytes-lost"+bearly+final+":"+sig, fmt.Sprintf("client received %d of %d bytes (%v)", cGot, c.Lb, cErr), w)
 			return
 		}
 		// close propagation
@@ -408,16 +621,14 @@ func c47(r *vkit.Run) {
 		if c.Closer == "backend" {
 			closer, other, otherR = t.conn, conn, io.Reader(cbr)
 		}
-		if c.Reset {
-			var raw net.Conn = closer
-			if tc, ok := raw.(*tls.Conn); ok {
-				raw = tc.NetConn()
+		if c.Last == 0 {
+			if c.Reset {
+				if tcp := rawTCP(closer); tcp != nil {
+					tcp.SetLinger(0)
+				}
 			}
-			if tcp, ok := raw.(*net.TCPConn); ok {
-				tcp.SetLinger(0)
-			}
-		}
-		closer.Close()
+			closer.Close()
+		} // else: the closer closed together with its last write
 		seen := make(chan int, 1)
 		go func() {
 			buf := make([]byte, 4096)
@@ -490,6 +701,20 @@ func c47(r *vkit.Run) {
 	ws, st := e2eTunnelPanics()
 	if ws != 0 || st != 0 {
 		r.Violation("panic-counter:tunnel", fmt.Sprintf("WebSocketPanicConn=%d StreamPanicConn=%d", ws, st), nil)
+	}
+	if r.Replay == "" {
+		for _, k := range []string{"ws", "wss", "stream"} {
+			for _, cl := range []string{"client", "backend"} {
+				if r.Counter("last_write_with_close:"+k+":"+cl+"-closes") == 0 {
+					r.Inconclusive("no " + k + " tunnel in which the " + cl + " closed together with its last write was observed")
+				}
+			}
+		}
+		for _, k := range []string{"wss", "stream"} {
+			if r.Counter("tls_client_last_data_and_close_notify_in_one_tcp_write:"+k) == 0 {
+				r.Inconclusive("no " + k + " client sent its last data record and close_notify in one TCP write")
+			}
+		}
 	}
 	if r.Replay == "" && (r.Counter("tunnels_ws") == 0 || r.Counter("tunnels_wss") == 0 || r.Counter("tunnels_stream") == 0) {
 		r.Inconclusive("a tunnel kind was never established")
